@@ -553,6 +553,17 @@ fn corr_core() -> Vec<Eval> {
 fn opts_qx_one(rng: &mut Rng) -> Vec<Opts> {
     vec![Opts::quick_xml().sorted(rng.chance(1, 2))]
 }
+// (Unsorted, XmlName) pairs: the quick-xml preset, or in a third of the cases a random text identifier
+// and attribute prefix (round 7: the text field moved behind the children for one particular identifier)
+fn opts_pair_custom(rng: &mut Rng) -> Vec<Opts> {
+    if rng.chance(1, 3) {
+        let (t, a) = (rand_ident(rng), rand_ident(rng));
+        let o = Opts { text_identifier: t, attribute_prefix: a, derive: "Serialize, Deserialize".to_string(), sort_by_name: false };
+        vec![o.clone(), o.sorted(true)]
+    } else {
+        vec![Opts::quick_xml(), Opts::quick_xml().sorted(true)]
+    }
+}
 fn opts_qx_both(_: &mut Rng) -> Vec<Opts> {
     vec![Opts::quick_xml(), Opts::quick_xml().sorted(true)]
 }
@@ -785,7 +796,7 @@ pub fn c09(ctx: &mut Ctx) {
             }
         }
     }
-    run_docprop(ctx, DocProp { evals, opts: opts_qx_both, exhaustive: true, n_rand: (2000, 16000), pools: vec![], tweak, extra: None, max_docs: 4, with_chars: true, what: "renderings in pairs (Unsorted, XmlName); generator widened to many attributes/children appearing late" });
+    run_docprop(ctx, DocProp { evals, opts: opts_pair_custom, exhaustive: true, n_rand: (2000, 16000), pools: vec![], tweak, extra: None, max_docs: 4, with_chars: true, what: "renderings in pairs (Unsorted, XmlName), a third of them with a random text identifier and attribute prefix; generator widened to many attributes/children appearing late" });
 }
 pub fn c10(ctx: &mut Ctx) {
     let evals = vec![ev("bytes", "ev_bytes", "corr"), ev("reflects", "or_reflects", "oracle"), ev("derive", "or_derive", "oracle"), ev("orthogonal", "or_orthogonal", "oracle")];
